@@ -280,10 +280,75 @@ fn run_case(c: &Case) -> Verdict {
                     }
                 }};
             }
+            // address classes: documentation prefix, IPv4-mapped, IPv4-compatible, global, ULA
+            let (a, b, cc, d) = ((*pos >> 8) as u8, *pos as u8, (*pos >> 3) as u8, 1 + (*pos % 250) as u8);
+            let v6_base = match *pos % 5 {
+                0 => Ipv6Addr::new(0x2001, 0xdb8, 0, 0, 0, 0, 0, 1 + *pos),
+                1 => Ipv4Addr::new(a, b, cc, d).to_ipv6_mapped(),
+                2 => Ipv4Addr::new(a | 1, b, cc, d).to_ipv6_compatible(),
+                3 => Ipv6Addr::new(0x2a00 | (*pos & 0xff), *pos, 7, 0, 0, 0, *pos ^ 0x5a5a, 1),
+                _ => Ipv6Addr::new(0xfd00, 0, 0, 0, 0, 0, 0, 1 + *pos),
+            };
             if *v6 {
-                go!(IPv6NodeID, ipv6_addr, Ipv6Addr::new(0x2001, 0xdb8, 0, 0, 0, 0, 0, 1 + *pos), Ipv6Addr::new(0x2001, 0xdb8, 0, 0, 0, 0, 1, 1 + *pos));
+                go!(IPv6NodeID, ipv6_addr, v6_base, Ipv6Addr::new(0x2001, 0xdb8, 0, 0, 0, 0, 1, 1 + *pos));
             } else {
                 go!(IPv4NodeID, ipv4_addr, Ipv4Addr::new(10, 1, (*pos >> 8) as u8, *pos as u8), Ipv4Addr::new(10, 2, (*pos >> 8) as u8, *pos as u8));
+            }
+            // the address field once more, with substitutions a bit flip does not reach: one flipped address bit,
+            // the sibling textual family of the same 32 bits (IPv4-mapped <-> IPv4-compatible), and the same
+            // fields re-typed between the IPv4 and the IPv6 identity
+            if !tampered && field == 2 {
+                if *v6 {
+                    if let Ok(n) = IPv6NodeID::generate(v6_base, &keys.sk, &keys.pk) {
+                        if n.verify().unwrap_or(false) {
+                            let mut subs: Vec<(&str, Ipv6Addr)> = Vec::new();
+                            let mut o = v6_base.octets();
+                            let bit = (*pos as usize / 5) % 128;
+                            o[bit / 8] ^= 1 << (bit % 8);
+                            subs.push(("one-address-bit", Ipv6Addr::from(o)));
+                            if let Some(v4) = v6_base.to_ipv4() {
+                                let sib = if v6_base.to_ipv4_mapped().is_some() { v4.to_ipv6_compatible() } else { v4.to_ipv6_mapped() };
+                                subs.push(("sibling-ipv4-embedding", sib));
+                                // re-typed: the same fields presented as an IPv4 identity
+                                let r = IPv4NodeID { node_id: n.node_id.clone(), ipv4_addr: v4, public_key: n.public_key.clone(), signature: n.signature.clone(), timestamp_secs: n.timestamp_secs, salt: n.salt.clone() };
+                                if r.verify().unwrap_or(false) {
+                                    v.fail(format!("{ID}/IpNodeID::verify/accepts-identity-retyped-between-ipv4-and-ipv6"), format!("IPv6 identity for {v6_base} verifies as an IPv4 identity for {v4}"));
+                                }
+                                v.class("ipnode_embedded_ipv4_address");
+                            }
+                            for (what, addr) in subs {
+                                if addr == v6_base {
+                                    continue;
+                                }
+                                let mut m = n.clone();
+                                m.ipv6_addr = addr;
+                                if m.verify().unwrap_or(false) {
+                                    v.fail(format!("{ID}/IpNodeID::verify/accepts-altered-ip-address/{what}"), format!("identity made for {v6_base} verifies for {addr}"));
+                                }
+                            }
+                        }
+                    }
+                } else {
+                    let base = Ipv4Addr::new(a | 1, b, cc, d);
+                    if let Ok(n) = IPv4NodeID::generate(base, &keys.sk, &keys.pk) {
+                        if n.verify().unwrap_or(false) {
+                            let mut o = base.octets();
+                            let bit = (*pos as usize / 5) % 32;
+                            o[bit / 8] ^= 1 << (bit % 8);
+                            let mut m = n.clone();
+                            m.ipv4_addr = Ipv4Addr::from(o);
+                            if m.verify().unwrap_or(false) {
+                                v.fail(format!("{ID}/IpNodeID::verify/accepts-altered-ip-address/one-address-bit"), format!("identity made for {base} verifies for {}", m.ipv4_addr));
+                            }
+                            for (what, addr) in [("mapped", base.to_ipv6_mapped()), ("compatible", base.to_ipv6_compatible())] {
+                                let r = IPv6NodeID { node_id: n.node_id.clone(), ipv6_addr: addr, public_key: n.public_key.clone(), signature: n.signature.clone(), timestamp_secs: n.timestamp_secs, salt: n.salt.clone() };
+                                if r.verify().unwrap_or(false) {
+                                    v.fail(format!("{ID}/IpNodeID::verify/accepts-identity-retyped-between-ipv4-and-ipv6"), format!("IPv4 identity for {base} verifies as an IPv6 identity for the {what} address {addr}"));
+                                }
+                            }
+                        }
+                    }
+                }
             }
         }
         Site::UpdateVerifier { mode, prior } | Site::UpdateFile { mode, prior } => {
